@@ -27,6 +27,8 @@ pub struct Scn {
     pub step_cap: u64,
     #[serde(default)]
     pub print_msgs: bool,
+    #[serde(default)]
+    pub print_opcode: bool,
 }
 
 #[derive(Clone, Debug, PartialEq)]
@@ -173,7 +175,7 @@ fn reference_run(scn: &Scn, g: &Option<Guest>, charges: &[u64]) -> Result<RefTra
 /// Charges of a real run under the fast clock: one per executed instruction.
 fn observe_charges(scn: &Scn, g: &Option<Guest>) -> Result<Vec<u64>, Failure> {
     let gg = g.clone().unwrap_or_else(empty_guest);
-    let cfg = SysCfg { wait_start: false, clock: ClockModel::Fast, clock_seed: 0, step_cap: scn.step_cap + 8, print_msgs: false };
+    let cfg = SysCfg { wait_start: false, clock: ClockModel::Fast, clock_seed: 0, step_cap: scn.step_cap + 8, print_msgs: false, print_opcode: false };
     let scn2 = scn.clone();
     let (run, _) = run_sys(&gg, &cfg, &[], NullObserver, true, move |sim| {
         if let Some(path) = &scn2.elf {
@@ -279,7 +281,7 @@ struct RunSummary {
 
 fn real_run(scn: &Scn, g: &Option<Guest>, reft: &std::rc::Rc<RefTrace>, clock: &(ClockModel, u64), stats: &mut Stats) -> Result<RunSummary, Failure> {
     let gg = g.clone().unwrap_or_else(empty_guest);
-    let cfg = SysCfg { wait_start: false, clock: clock.0.clone(), clock_seed: clock.1, step_cap: scn.step_cap + 8, print_msgs: scn.print_msgs };
+    let cfg = SysCfg { wait_start: false, clock: clock.0.clone(), clock_seed: clock.1, step_cap: scn.step_cap + 8, print_msgs: scn.print_msgs, print_opcode: scn.print_opcode };
     let obs = LoopObserver {
         reft: reft.clone(),
         idx: 0,
@@ -451,7 +453,7 @@ impl Property for C13 {
         let every = if tier == Tier::Quick { 400 } else { 2000 };
         if index % every < EXAMPLES.len() as u64 {
             let (p, a) = EXAMPLES[(index % every) as usize];
-            return Scn { guest: None, elf: Some(p.to_string()), args: a.to_string(), clocks, step_cap: 30_000_000, print_msgs: false };
+            return Scn { guest: None, elf: Some(p.to_string()), args: a.to_string(), clocks, step_cap: 30_000_000, print_msgs: false, print_opcode: false };
         }
         // "exact landing": a guest whose cumulative state count equals 6,000,000 exactly at an instruction boundary
         // (every charge is a multiple of 3 and mostly of 6, so 2M and 4M cannot be hit exactly, 6M can). The padding is
@@ -469,8 +471,8 @@ impl Property for C13 {
                 for _ in 0..6 {
                     blocks.push(Block::Delay(60_000));
                 }
-                let guest = GuestSpec { blocks, handlers: vec![], code_dram: false, stack_dram: false, data_dram: false, vec_top: 0, sub_delay: 1, init_ccr: None, stack_off: 0 };
-                let scn = Scn { guest: Some(guest), elf: None, args: String::new(), clocks: clocks.clone(), step_cap: 1_000_000, print_msgs: false };
+                let guest = GuestSpec { blocks, handlers: vec![], code_dram: false, stack_dram: false, data_dram: false, vec_top: 0, sub_delay: 1, init_ccr: None, stack_off: 0, exit_style: 0 };
+                let scn = Scn { guest: Some(guest), elf: None, args: String::new(), clocks: clocks.clone(), step_cap: 1_000_000, print_msgs: false, print_opcode: false };
                 if let Ok(g) = scn.guest.as_ref().unwrap().assemble() {
                     if let Ok(t) = reference_run(&scn, &Some(g), &[]) {
                         let mut sum = 0u64;
@@ -576,10 +578,12 @@ impl Property for C13 {
             sub_delay: rng.range(1, 20) as u16,
             init_ccr: Some(if masked { 0x80 | rng.u8() } else { rng.u8() & 0x7f }),
             stack_off: if rng.chance(1, 2) { 0 } else { 4 * rng.below(64) as u16 },
+            exit_style: if rng.chance(1, 2) { 0 } else { rng.below(5) as u8 },
         };
         let est = super::c10::estimate_iters(&guest);
         let print_msgs = rng.chance(1, 8);
-        Scn { guest: Some(guest), elf: None, args: String::new(), clocks, step_cap: est * 4 + 50_000, print_msgs }
+        let print_opcode = est < 4000 && rng.chance(1, 6);
+        Scn { guest: Some(guest), elf: None, args: String::new(), clocks, step_cap: est * 4 + 50_000, print_msgs, print_opcode }
     }
 
     fn execute(scn: &Scn, stats: &mut Stats) -> Verdict {
